@@ -223,9 +223,17 @@ type e2eCase struct {
 	ewd     bool
 	fault   bool
 	note    string
+	// direct: the harness calls Controller.HandleIncomingStream itself (as the
+	// accept pump does) and so knows when it has returned; end says how the
+	// reads of the stream end after the bytes of raw (see direct_test.go).
+	direct bool
+	end    ending
 }
 
 func (c *e2eCase) sig() string {
+	if c.direct {
+		return fmt.Sprintf("e2e-direct|%s|%s|end=%s|id%d:%x|p%d|%s|via%d|ewd=%v|raw%d:%x", c.class, c.note, c.end.name, len(c.id), sum(c.id), len(c.payload), c.chunk, c.via, c.ewd, len(c.raw), sum(c.raw))
+	}
 	return fmt.Sprintf("e2e|%s|%s|id%d:%x|p%d|%s|via%d|ewd=%v|fault=%v|raw%d:%x", c.class, c.note, len(c.id), sum(c.id), len(c.payload), c.chunk, c.via, c.ewd, c.fault, len(c.raw), sum(c.raw))
 }
 
@@ -279,8 +287,13 @@ func (wk *worker) run(c *e2eCase) {
 	r := wk.r
 	rng := rand.New(rand.NewPCG(r.Seed(), uint64(c.idx)+991))
 	wit := func() map[string]any {
-		return map[string]any{"class": c.class, "note": c.note, "id_len": len(c.id), "id": vf.Hex(c.id), "payload_len": len(c.payload), "chunking": c.chunk,
+		m := map[string]any{"class": c.class, "note": c.note, "id_len": len(c.id), "id": vf.Hex(c.id), "payload_len": len(c.payload), "chunking": c.chunk,
 			"via_link": c.via, "err_with_last_bytes": c.ewd, "raw": vf.Hex(c.raw), "case": c.idx, "worker": wk.w}
+		if c.direct {
+			m["driver"] = "harness calls Controller.HandleIncomingStream directly"
+			m["reads_end_with"] = c.end.name
+		}
+		return m
 	}
 	if stale := wk.drainEvents(); stale > 0 {
 		r.Inconclusive(fmt.Sprintf("e2e case %d: %d stale events before the case", c.idx, stale))
@@ -344,12 +357,17 @@ func (wk *worker) run(c *e2eCase) {
 	default:
 		wire = c.raw
 		oa.Out.Inject(wire)
-		if c.fault {
+		switch {
+		case c.direct:
+			c.end.arm(oa, ob, len(wire))
+		case c.fault:
 			ob.In.FaultReadAt(len(wire), g4pipe.ErrFault)
-		} else {
+		default:
 			oa.CloseWrite()
 		}
-		lb.acceptCh <- ob
+		if !c.direct {
+			lb.acceptCh <- ob
+		}
 	}
 	hdrLen := len(wire) - len(c.payload)
 	ob.In.SetChunker(mkChunker(c.chunk, rng, hdrLen))
@@ -360,9 +378,119 @@ func (wk *worker) run(c *e2eCase) {
 	defer timer.Stop()
 	var handlerEv *event
 	sawDirective := false
+
+	// direct driver: the harness is the accept pump
+	closedCh := ob.Closed()
+	var done, returned chan struct{}
+	var poll <-chan time.Time
+	var rcancel context.CancelFunc = func() {}
+	if c.direct {
+		var rctx context.Context
+		rctx, rcancel = context.WithCancel(context.Background())
+		defer rcancel()
+		returned = make(chan struct{})
+		done = returned
+		go func() {
+			defer close(returned)
+			wk.b.ctrl.HandleIncomingStream(rctx, wk.b.tpt, lb, ob, stream.OpenOpts{})
+		}()
+		closedCh = nil // judged when HandleIncomingStream has returned
+		if c.end.late != nil {
+			tk := time.NewTicker(200 * time.Microsecond)
+			defer tk.Stop()
+			poll = tk.C
+		}
+		defer func() {
+			// the call must be over before the next case starts
+			select {
+			case <-returned:
+			case <-time.After(watchdog):
+				r.Inconclusive(fmt.Sprintf("e2e case %d: HandleIncomingStream did not return", c.idx))
+			}
+		}()
+	}
 wait:
 	for {
 		select {
+		case <-poll:
+			// the stream has stalled: every byte was delivered and the reader is
+			// parked in Read. Only now does the read end (a condition, not a duration).
+			if now, _ := ob.In.ReadersParked(); now > 0 && ob.In.Delivered() == len(wire) {
+				if armed, _ := ob.ReadDeadlineArmed(); armed {
+					r.Count("e2e_direct_stalled_reader_had_read_deadline_armed", 1)
+				}
+				r.Count("e2e_direct_read_ended_while_reader_parked", 1)
+				c.end.late(oa, ob, len(wire), rcancel)
+				poll = nil
+			}
+		case <-done:
+			done = nil
+			closes := ob.Closes()
+			if !valid {
+				ok := true
+				for {
+					var ev *event
+					select {
+					case e := <-wk.b.rec.events:
+						ev = &e
+					default:
+					}
+					if ev == nil {
+						break
+					}
+					ok = false
+					w := wit()
+					w["event"] = ev.kind
+					w["dispatched_protocol_id"] = vf.Hex([]byte(ev.pid))
+					r.Violation("e2e/malformed-dispatched/"+c.class, "a malformed header ("+c.class+" "+c.note+") reached the HandleMountedStream lookup", w)
+					if ev.kind == "handler" {
+						_ = ev.ms.GetStream().Close()
+					}
+				}
+				if closes == 0 {
+					ok = false
+					w := wit()
+					w["consumed"] = ob.In.Delivered()
+					terr, tpos := ob.In.Terminal()
+					w["read_error_handed_to_controller"] = fmt.Sprint(terr)
+					w["read_error_at"] = tpos
+					r.Violation("e2e/malformed-not-closed/"+c.class+"/"+c.end.class, "HandleIncomingStream returned for a malformed header ("+c.class+" "+c.note+", reads ended with "+c.end.name+") without closing the stream", w)
+				} else {
+					r.Count("e2e_direct_rejected_closed/"+c.class+"/"+c.end.class, 1)
+				}
+				nrd, rdh := ob.In.ReadStats()
+				r.Distinct("e2e_read_schedules", fmt.Sprint(c.chunk, c.ewd, nrd, rdh))
+				r.Case(c.sig(), ok)
+				return
+			}
+			// valid: everything the controller dispatched is already queued
+			for handlerEv == nil {
+				var ev *event
+				select {
+				case e := <-wk.b.rec.events:
+					ev = &e
+				default:
+				}
+				if ev == nil {
+					break
+				}
+				r.Count("e2e_events_"+ev.kind, 1)
+				if ev.kind == "directive" {
+					sawDirective = true
+					wk.checkParams(c, lb, *ev, wit)
+					continue
+				}
+				handlerEv = ev
+			}
+			if handlerEv != nil {
+				break wait
+			}
+			w := wit()
+			w["consumed"] = ob.In.Delivered()
+			w["stream_closed"] = closes > 0
+			r.Violation("e2e/valid-rejected/direct/"+c.chunk, "a valid header was not dispatched: HandleIncomingStream returned without handing the stream to the handler", w)
+			r.Case(c.sig(), false)
+			return
 		case ev := <-wk.b.rec.events:
 			if !valid {
 				w := wit()
@@ -388,7 +516,7 @@ wait:
 			}
 			handlerEv = &ev
 			break wait
-		case <-ob.Closed():
+		case <-closedCh:
 			if valid {
 				// closed without handing the stream to a handler
 				select {
@@ -448,6 +576,15 @@ wait:
 			key = "e2e/underread"
 		}
 		r.Violation(key, fmt.Sprintf("controller consumed %d bytes before dispatch, header is %d bytes", consumed, hdrLen), w)
+	}
+	if c.direct && c.end.openAtDispatch {
+		// the stream was still open when the header was dispatched; end it now
+		if n := ob.Closes(); n > 0 {
+			ok = false
+			r.Violation("e2e/valid-closed-by-controller", "the controller closed a stream it handed to the handler", wit())
+		}
+		r.Count("e2e_direct_valid_dispatched_while_stream_open", 1)
+		oa.CloseWrite()
 	}
 	// the application reads the rest
 	got, rerr := readAllWatchdog(ms.GetStream())
@@ -606,6 +743,7 @@ func genE2ECases(r *vf.Run, limit int) []*e2eCase {
 			}
 		}
 	}
+	genDirectCases(r, limit, add)
 	return cases
 }
 
